@@ -336,7 +336,10 @@ class PrintrunWriter(BaseWriter):
             self._logger.debug("Device message: %s", message)
 
             if lower_message.startswith(SUCCESS_PREFIXES):
-                self._ack_event.set()
+                try:
+                    self._parse_message(message)
+                finally:
+                    self._ack_event.set()
                 return
             elif lower_message.startswith(ERROR_PREFIXES):
                 error_message = self._format_error(message)
